@@ -61,7 +61,9 @@ def toStr (tab : List (Nat × String)) (pre : String) (n : Nat) : List Char :=
   | some s => s.toList
   | none => pre.toList ++ '(' :: (Nat.repr n).toList ++ [')']
 
-/-- `from_str`: `_INTS[s]`, else `int(s.removeprefix("PRE(").removesuffix(")"))`; none = raises -/
+/-- `from_str`: `_INTS[s]`, else `int(s.removeprefix("PRE(").removesuffix(")"))`; none = raises.
+    NOTE: `String.toNat?` is narrower than Python's `int()` (which also accepts `+5`, ` 5 `, `1_0`, non-ASCII digits): this is a model of
+    `from_str` on the outputs of `to_str` only (the only texts fed back in the round trip, and the only ones tied). -/
 def fromStr (tab : List (Nat × String)) (pre : String) (s : List Char) : Option Nat :=
   match revLookup tab s with
   | some n => some n
